@@ -9,6 +9,12 @@ import sys
 REGISTRY = {
     "C01": ("engine", "check_C01"),
     "C14": ("engine", "check_C14"),
+    "C03": ("eems", "check_C03"),
+    "C04": ("eems", "check_C04"),
+    "C05": ("eems", "check_C05"),
+    "C06": ("eems", "check_C06"),
+    "C07": ("eems", "check_C07"),
+    "C08": ("eems", "check_C08"),
 }
 
 
